@@ -115,13 +115,26 @@ func init() {
 	for _, f := range []string{"adjust_lon", "adjust_lat", "sign", "asinz", "phi2z", "imlfn", "mlfn", "msfnz", "tsfnz", "qsfnz", "e0fn", "e1fn", "e2fn", "e3fn", "aeaPhi1z", "srat", "sinh", "cosh", "tanh"} {
 		projMerge = append(projMerge, ModPath+"/proj."+f)
 	}
+	for _, f := range []string{"geodetic_to_geocentric", "geocentric_to_geodetic", "geocentric_to_wgs84", "geocentric_from_wgs84"} {
+		projMerge = append(projMerge, "(*"+ModPath+"/proj.datum)."+f)
+	}
+	for _, f := range []string{"TMerc", "LCC", "AEA", "Merc", "EqdC", "UTM", "Krovak", "LongLat"} {
+		// forward ($1) and inverse ($2) closures of each projection
+		projMerge = append(projMerge, ModPath+"/proj."+f+"$1", ModPath+"/proj."+f+"$2")
+	}
 	reg(&Property{
 		ID: "C10", Pkgs: []string{".", "proj"}, Level: "model_checking",
 		Rule: "one evaluation = one explored path (geometry shape x index of the failing vertex, or SR pair x call history); non-trivial = path ends with all assertions discharged",
-		Opts: []HarnessOpt{{Prefix: "VH_C10_", IfConv: true, MaxUnwind: 40}, {Prefix: "VH_C10_history", Mode: "U", IfConv: true, MaxUnwind: 60, MaxSteps: 50_000_000, Merge: projMerge}},
+		Opts: []HarnessOpt{{Prefix: "VH_C10_", IfConv: true, MaxUnwind: 40}, {Prefix: "VH_C10_history", Mode: "U", IfConv: true, MaxUnwind: 60, MaxSteps: 50_000_000, Merge: projMerge},
+			{Prefix: "VH_C10_history_03", Mode: "U", IfConv: true, MaxUnwind: 60, MaxSteps: 50_000_000, Merge: projMerge, ThoroughOnly: true},
+			{Prefix: "VH_C10_history_04", Mode: "U", IfConv: true, MaxUnwind: 60, MaxSteps: 50_000_000, Merge: projMerge, ThoroughOnly: true},
+			{Prefix: "VH_C10_history_05", Mode: "U", IfConv: true, MaxUnwind: 60, MaxSteps: 50_000_000, Merge: projMerge, ThoroughOnly: true},
+			{Prefix: "VH_C10_history_06", Mode: "U", IfConv: true, MaxUnwind: 60, MaxSteps: 50_000_000, Merge: projMerge, ThoroughOnly: true},
+			{Prefix: "VH_C10_history_08", Mode: "U", IfConv: true, MaxUnwind: 60, MaxSteps: 50_000_000, Merge: projMerge, ThoroughOnly: true},
+			{Prefix: "VH_C10_history_10", Mode: "U", IfConv: true, MaxUnwind: 60, MaxSteps: 50_000_000, Merge: projMerge, ThoroughOnly: true}},
 		Bounds: map[string]string{
 			"geometries": "all eight types, <=2 members x <=2 vertices, collections nested to depth 1 (2 thorough); transformer failing at every vertex index or never",
-			"histories":  "<=3 transformer calls per history over the listed SR pairs",
+			"histories":  "quick: longlat<->merc, utm->utm, axis=neu source (t(p); t(p); u(q); t(q); t(p); fresh t(p)) and longlat+7-parameter datum -> WGS84 (t(p); t(p); fresh t(p)); thorough adds lcc, tmerc/utm with 3- and 7-parameter datums (WGS84 hop), aea in US feet",
 		},
 		Assumptions: []string{"libm functions are uninterpreted symbols: determinism/history-independence proved for every interpretation"},
 		Outside:     []string{"numeric accuracy of the transformers (C08/C09)", "larger geometries"},
